@@ -286,6 +286,11 @@ func checkC38(c *Ctx, r *Report) {
 			}
 		}
 		for _, site := range appendSites(al, "[]time.Time") {
+			// only the recording of a new attempt: an element that comes from time.Now (re-keeping an
+			// old hit while filtering is not a recording)
+			if site.Elem == nil || !dependsOnCall(site.Elem, "time.Now") {
+				continue
+			}
 			n++
 			guardVerdict(m, r, "C38.R3", "Allow records a hit only when it admits", al, site.Call, Guard{cl(below)})
 		}
@@ -304,5 +309,196 @@ func checkC38(c *Ctx, r *Report) {
 		} else {
 			r.viol("C38.R3", "Allow keeps hits that are after now - window", m.Pos(al.Pos()), "no comparison of stored hits with a cutoff derived from the window")
 		}
+		// the hits counted against the limit contain every stored hit that is still inside the window:
+		// the counted slice is the stored one, pruned only element by element on the !After(cutoff) edge
+		keyW := "Allow counts every stored hit that is after the cutoff (hits are dropped one by one, only when not after it)"
+		for _, b := range al.Blocks {
+			for _, in := range b.Instrs {
+				bo, ok := in.(*ssa.BinOp)
+				if !ok {
+					continue
+				}
+				var lenArg ssa.Value
+				for _, side := range []ssa.Value{bo.X, bo.Y} {
+					if lc, ok := strip(side).(*ssa.Call); ok && calleeName(&lc.Call) == "builtin.len" {
+						lenArg = lc.Call.Args[0]
+					}
+				}
+				other := bo.Y
+				if lenArg != nil && strip(bo.Y) != nil {
+					if lc, ok := strip(bo.Y).(*ssa.Call); ok && calleeName(&lc.Call) == "builtin.len" {
+						other = bo.X
+					}
+				}
+				if lenArg == nil {
+					continue
+				}
+				if _, f, _, okf := fieldOf(other); !okf || f != "limit" {
+					continue
+				}
+				okW, why := prunedPerElement(lenArg)
+				if okW {
+					r.ok("C38.R3", keyW, m.Pos(bo.Pos()), why)
+				} else {
+					r.viol("C38.R3", keyW, m.Pos(bo.Pos()), why)
+				}
+			}
+		}
 	}
+}
+
+// prunedPerElement: `counted` is the slice loaded from the hits map, either as it is, or compacted in
+// place / filtered by append inside a range over all of its elements where an element is skipped only
+// on the false edge of elem.After(cutoff).
+func prunedPerElement(counted ssa.Value) (bool, string) {
+	isStored := func(v ssa.Value) bool {
+		lk, ok := strip(v).(*ssa.Lookup)
+		if !ok {
+			return false
+		}
+		_, f, _, okf := fieldOf(lk.X)
+		return okf && f == "hits"
+	}
+	if isStored(counted) {
+		return true, "the stored slice is counted unpruned"
+	}
+	// the loop-carried accumulator: the keep counter of an in-place compaction, or the filtered slice
+	var acc *ssa.Phi
+	var H ssa.Value
+	switch x := strip(counted).(type) {
+	case *ssa.Slice:
+		if x.Low != nil || x.High == nil || !isStored(x.X) {
+			return false, "the counted slice is " + describe(counted) + ", not the stored hits cut at the number of kept elements"
+		}
+		H = x.X
+		acc, _ = strip(x.High).(*ssa.Phi)
+	case *ssa.Phi:
+		acc = x
+	}
+	if acc == nil {
+		return false, "the counted slice " + describe(counted) + " is not produced by a per-element filter of the stored hits"
+	}
+	hdr := acc.Block()
+	isLoop := false
+	for _, p := range hdr.Preds {
+		if hdr.Dominates(p) {
+			isLoop = true
+		}
+	}
+	if !isLoop {
+		return false, "the counted slice " + describe(counted) + " is selected by a branch, not produced by testing each stored hit against the cutoff: hits still inside the window can be forgotten together with a stale one"
+	}
+	// the range index over the stored slice
+	var idx ssa.Value
+	for _, in := range hdr.Instrs {
+		ph, ok := in.(*ssa.Phi)
+		if !ok || ph == acc || len(ph.Edges) < 2 {
+			continue
+		}
+		if k, ok := constInt(ph.Edges[0]); ok && k == -1 {
+			for _, ref := range *ph.Referrers() {
+				if add, ok := ref.(*ssa.BinOp); ok && add.Op == token.ADD {
+					if one, ok := constInt(add.Y); ok && one == 1 {
+						idx = add
+					}
+				}
+			}
+		}
+	}
+	if idx == nil {
+		return false, "no range loop over the stored hits found at the accumulator's loop header"
+	}
+	// the loop runs over all of H
+	if ifi, ok := hdr.Instrs[len(hdr.Instrs)-1].(*ssa.If); ok {
+		bo, ok := ifi.Cond.(*ssa.BinOp)
+		good := ok && bo.Op == token.LSS && bo.X == idx
+		if good {
+			lc, ok := strip(bo.Y).(*ssa.Call)
+			good = ok && calleeName(&lc.Call) == "builtin.len" && isStored(lc.Call.Args[0])
+			if good && H == nil {
+				H = lc.Call.Args[0]
+			}
+			if good && strip(lc.Call.Args[0]) != strip(H) {
+				good = false
+			}
+		}
+		if !good {
+			return false, "the pruning loop does not run over every stored hit"
+		}
+	} else {
+		return false, "loop header has no bound test"
+	}
+	isElem := func(v ssa.Value) bool {
+		u, ok := strip(v).(*ssa.UnOp)
+		if !ok {
+			return false
+		}
+		ia, ok := u.X.(*ssa.IndexAddr)
+		return ok && strip(ia.X) == strip(H) && ia.Index == idx
+	}
+	nKeep, nSkip := 0, 0
+	for i, e := range acc.Edges {
+		pred := hdr.Preds[i]
+		if !hdr.Dominates(pred) {
+			// loop entry: counter 0 / empty slice
+			if k, ok := constInt(e); ok && k == 0 {
+				continue
+			}
+			if sl, ok := strip(e).(*ssa.Slice); ok && sl.High != nil {
+				if k, ok := constInt(sl.High); ok && k == 0 {
+					continue
+				}
+			}
+			if c, ok := strip(e).(*ssa.Const); ok && c.IsNil() {
+				continue
+			}
+			return false, "the accumulator does not start empty: " + describe(e)
+		}
+		if strip(e) == ssa.Value(acc) {
+			// skip edge: only the false edge of elem.After(cutoff)
+			ifi, ok := pred.Instrs[len(pred.Instrs)-1].(*ssa.If)
+			if !ok || pred.Succs[1] != hdr {
+				return false, "an element can be dropped on an edge that is not the false edge of a window test (block " + pred.Comment + ")"
+			}
+			call, ok := strip(ifi.Cond).(*ssa.Call)
+			if !ok || calleeName(&call.Call) != "(time.Time).After" || !isElem(call.Call.Args[0]) ||
+				!dependsOnCall(call.Call.Args[1], "(time.Time).Add") || !dependsOnField(call.Call.Args[1], "", "window") {
+				return false, "an element is dropped on a test other than elem.After(now - window): " + describe(ifi.Cond)
+			}
+			nSkip++
+			continue
+		}
+		// keep edge
+		switch k := strip(e).(type) {
+		case *ssa.BinOp:
+			one, ok := constInt(k.Y)
+			if k.Op != token.ADD || k.X != ssa.Value(acc) || !ok || one != 1 {
+				return false, "keep counter updated by " + describe(e)
+			}
+			// the element is stored at H[acc] in the same block
+			stored := false
+			for _, in := range k.Block().Instrs {
+				if st, ok := in.(*ssa.Store); ok {
+					if ia, ok := st.Addr.(*ssa.IndexAddr); ok && strip(ia.X) == strip(H) && ia.Index == ssa.Value(acc) && isElem(st.Val) {
+						stored = true
+					}
+				}
+			}
+			if !stored {
+				return false, "the keep counter advances without storing the element at the kept position"
+			}
+			nKeep++
+		case *ssa.Call:
+			if calleeName(&k.Call) != "builtin.append" || strip(k.Call.Args[0]) != ssa.Value(acc) {
+				return false, "kept slice updated by " + describe(e)
+			}
+			nKeep++
+		default:
+			return false, "accumulator updated by " + describe(e)
+		}
+	}
+	if nKeep == 0 {
+		return false, "no element is ever kept"
+	}
+	return true, fmt.Sprintf("per-element filter: %d keep edge(s), %d skip edge(s), every skip is the false edge of elem.After(now - window)", nKeep, nSkip)
 }
